@@ -232,7 +232,11 @@ m("C03", "other",
   "requests exactly the undelivered bytes), retransmitted tiles in any order (C03_resent_tile_any, "
   "C03_wait_any_history) and the one that delivers the last missing byte (C03_last_resent_tile_any, "
   "C03_last_tile_completes); composed in C03_receiver_recovers_any_loss; the sender's answers to grid-aligned "
-  "requests are exactly those tiles (C03_answer_is_tiles). "
+  "requests are exactly those tiles (C03_answer_is_tiles). BOTH MODELS COMPOSED for any loss pattern "
+  "(C03_end_to_end_any_loss): the sender's stream, any sub-multiset of the tiles arriving in any order with at "
+  "least one never, EOF, ACK, one NAK requesting exactly the undelivered bytes, the sender's answer = exactly the "
+  "missing tiles (C03_sender_answers_nak, ansTiles_spec), completion at the tile delivering the last missing byte "
+  "(C03_receiver_recovers_any_loss_all), Finished/ACK, both idle, file identical. "
   "Lean 4 theorems (recovery mechanisms for all states; whole-run recovery from one loss by forward simulation "
   "+ list lemmas on the file with a hole) + exhaustive <=2-drop and sampled fault-schedule exploration "
   "(general liveness not proved)", "§6 C03, §11",
